@@ -140,6 +140,7 @@ class DMETProblemDecomposition(ProblemDecomposition):
             new_molecule = gto.Mole()
             new_molecule.atom = new_geometry
             new_molecule.basis = self.molecule.basis
+            new_molecule.ecp = self.molecule.ecp
             new_molecule.charge = self.molecule.charge
             new_molecule.spin = self.molecule.spin
             new_molecule.unit = "B"
